@@ -33,7 +33,7 @@ structure PM where
   a : Array Float
   deriving Inhabited
 
-def PM.at (M : PM) (i j : Nat) : Float := M.a[i * M.c + j]!
+def PM.at (M : PM) (i j : Nat) : Float := M.a.getD (i * M.c + j) 0.0
 
 def parseMat (l : List String) : Option (PM × List String) :=
   match l with
@@ -287,7 +287,8 @@ def lapVerdict (k : Kind) (M : PM) (impl : List String) : String :=
   if impl == ["hang"] then "FAIL:lap_terminates" else
   if isCrash impl then "FAIL:lap_no_oob" else
   if d.1 != d.2 then (if impl == ["exc:bpp"] then "ok" else "FAIL:lap_nonsquare_raises") else
-  if !M.fin then "-" else
+  -- a NaN or infinite cost raises too (`lap_nonsquare_raises`; the test is part of `Lap.lap`)
+  if !M.fin then (if impl == ["exc:bpp"] then "ok" else "FAIL:lap_nonfinite_raises") else
   let n := d.1
   match splitTok ";" impl with
   | [["cost", ct], "rowsol" :: rs, "colsol" :: cs, "u" :: us, "v" :: vs] =>
@@ -755,6 +756,43 @@ def stepProd (st : St) (w : String) (rest : List String) (impl : Option (List St
       vOfImpl impl (judge ⟨"directSumN", true, [mkOut st.kO accQ.1 accQ.2.1 accQ.2.2 accM.2.2], 1, ms.all (·.fin), true, true⟩))
   | _ => none
 
+/-- the matrix operands of an operation line, each with the storage class it is given -/
+def operandMats (st : St) (w : String) (rest : List String) : List (Kind × PM) :=
+  let one : P (List PM) := do let a ← pMat; pure [a]
+  let two : P (List PM) := do let a ← pMat; let b ← pMat; pure [a, b]
+  let four : P (List PM) := do let a ← pMat; let b ← pMat; let c ← pMat; let d ← pMat; pure [a, b, c, d]
+  let unary := ["copy", "copyup", "copydown", "diagm", "fill", "filldiag", "scale", "pow", "taylor", "transpose",
+    "transpose2", "issym", "covar", "tovv", "lap"]
+  let p : Option (P (List PM) × Bool) :=
+    if unary.contains w then some (one, true)
+    else if w == "lapv" then some ((do let _ ← pNat; let _ ← pNat; let _ ← pNat; let _ ← pNat; one), true)
+    else if w == "mult" || w == "add" || w == "kron" || w == "kron2" || w == "had" || w == "dsum" then some (two, false)
+    else if w == "adds" then some ((do let a ← pMat; let _ ← pFlt; let b ← pMat; pure [a, b]), false)
+    else if w == "multc" || w == "hadc" then some (four, false)
+    else if w == "multd" then some ((do let a ← pMat; let _ ← pVec; let b ← pMat; pure [a, b]), false)
+    else if w == "multt" then some ((do let a ← pMat; let _ ← pVec; let _ ← pVec; let _ ← pVec; let b ← pMat; pure [a, b]), false)
+    else if w == "multcd" then some ((do let a ← pMat; let b ← pMat; let _ ← pVec; let _ ← pVec; let c ← pMat; let d ← pMat; pure [a, b, c, d]), false)
+    else if w == "krond" || w == "hadv" then some (one, false)
+    else if w == "dsumn" then some ((do
+      let k ← pNat
+      let rec go : Nat → P (List PM)
+        | 0 => pure []
+        | n + 1 => do let a ← pMat; let r ← go n; pure (a :: r)
+      go k), false)
+    else none
+  match p with
+  | none => []
+  | some (q, un) =>
+    match q.run rest with
+    | some (ms, _) => ms.zipIdx.map fun (M, idx) => (if un then st.kA else st.kin idx, M)
+    | none => []
+
+/-- some operand has exactly one zero dimension and is held by a class that cannot represent it (it
+reports `0 × 0`): the region of the known finding `C04-degenerate-shape-storage-dependence`, where
+dimensions, results and whether the call raises depend on the storage class -/
+def degenerateOperand (st : St) (w : String) (rest : List String) : Bool :=
+  (operandMats st w rest).any fun (k, M) => dimsOf k M != (M.r, M.c)
+
 def step (st : St) (op : List String) (impl : Option (List String)) : St × String × String :=
   match stepStore st op impl with
   | some r => r
@@ -762,7 +800,11 @@ def step (st : St) (op : List String) (impl : Option (List String)) : St × Stri
     match op with
     | w :: rest =>
       match (stepUnary st w rest impl <|> stepExtremum st w rest impl <|> stepMult st w rest impl <|> stepProd st w rest impl) with
-      | some (out, v) => (st, out, v)
+      | some (out, v) =>
+        -- a verdict `ok` obtained through the reported dimensions of a collapsed operand is replaced by
+        -- the clause of the known finding (every routine, not only the four of `judgeDep`)
+        if v == "ok" && degenerateOperand st w rest then (st, out, "FAIL:storage_independent_degenerate")
+        else (st, out, v)
       | none => (st, "bad-op", "-")
     | [] => (st, "bad-op", "-")
 
